@@ -21,13 +21,6 @@ Proof. vm_compute. reflexivity. Qed.
 (* ---- the general theorem for the repaired lowering ---- *)
 Ltac Zify.zify_post_hook ::= Z.div_mod_to_equations.
 
-Fixpoint wf_e (e : e64) : Prop :=
-  match e with
-  | K64 c _ => 0 <= c < W64
-  | ADD a b _ => wf_e a /\ wf_e b
-  | _ => True
-  end.
-
 Lemma w64_idem a : w64 (w64 a) = w64 a.
 Proof. unfold w64. rewrite Z.mod_mod; [reflexivity | unfold W64; lia]. Qed.
 Lemma w64_add_l a b : w64 (w64 a + b) = w64 (a + b).
@@ -46,34 +39,45 @@ Proof. lia. Qed.
 
 Lemma ev_reduced rg e : w64 (ev rg e) = ev rg e.
 Proof.
-  destruct e as [r | c m | x m | x m | x k m | a b m]; cbn [ev]; try apply w64_idem.
+  destruct e as [r | c m | x m | x m | sg n x m | n x m | x k m | x y m | a b m]; cbn [ev]; try apply w64_idem.
   destruct x; cbn [ev32]; unfold w64, zext32, W64, W32.
   - pose proof (Z.mod_pos_bound (rg r) 4294967296). rewrite Z.mod_small; lia.
   - pose proof (Z.mod_pos_bound c 4294967296). rewrite Z.mod_small; lia.
 Qed.
 
+Lemma w64_s64 u : w64 (s64 (w64 u)) = w64 u.
+Proof.
+  unfold s64. destruct (w64 u <? 9223372036854775808); [apply w64_idem|].
+  rewrite <- (w64_idem u) at 2. apply w64_congr. exists (-1). lia.
+Qed.
+
+Lemma sext32_zext32 c : sext32 (zext32 c) = sext32 c.
+Proof. unfold sext32, zext32. rewrite Z.mod_mod by (unfold W32; lia). reflexivity. Qed.
+
 Lemma lower_addend_ok rg e :
-  frontend_shape e = true -> zext_ok rg e -> wf_e e ->
+  addend_ok e = true -> addend_zext rg e ->
   addend_val (lower_addend true rg e) = ev rg e.
 Proof.
-  intros Hs Hz Hw. unfold lower_addend.
+  intros Hs Hz. unfold lower_addend.
   destruct (matchable_addend e) eqn:Hm;
     [| cbn [addend_val]; rewrite Z.pow_0_r, Z.mul_1_r; apply ev_reduced].
-  destruct e as [r | c m | x m | x m | x k m | a b m]; cbn [matchable_addend] in Hm; try discriminate; subst m.
-  - cbn [lower_addend_from_instr addend_val ev]. cbn in Hw.
-    destruct (c <? 9223372036854775808) eqn:E; [reflexivity|].
-    apply w64_congr. exists (-1). lia.
+  destruct e as [r | c m | x m | x m | sg n x m | n x m | x k m | x y m | a b m];
+    cbn [matchable_addend] in Hm; try discriminate; subst m.
+  - cbn [lower_addend_from_instr addend_val ev]. apply w64_s64.
   - destruct x as [r | c]; cbn [lower_addend_from_instr addend_val ev ev32].
     + cbn in Hz. rewrite Z.pow_0_r, Z.mul_1_r, w64_idem. unfold w64, zext32, W64, W32 in *.
       rewrite !Z.mod_small; lia.
     + unfold w64, zext32, W64, W32. rewrite (Z.mod_small (c mod _)); [reflexivity|].
       pose proof (Z.mod_pos_bound c 4294967296). lia.
+  - destruct x as [r | c]; [cbn in Hs; discriminate|].
+    cbn [lower_addend_from_instr addend_val ev ev32]. rewrite sext32_zext32. reflexivity.
+  - cbn in Hs. discriminate.
+  - cbn in Hs. discriminate.
   - cbn in Hs. apply andb_prop in Hs as [H0 H3]. apply Z.leb_le in H0, H3.
     cbn [lower_addend_from_instr addend_val ev].
     replace (k <=? 3) with true by (symmetry; apply Z.leb_le; lia).
-    cbn [addend_val].
-    destruct (pow2_cases k ltac:(lia)) as [-> | [-> | [-> | ->]]]; cbn [Z.pow Z.pow_pos Pos.iter Z.mul Pos.mul];
-      unfold w64, W64; lia.
+    cbn [addend_val]. rewrite (Z.mod_small k 64) by lia. reflexivity.
+  - cbn in Hs. discriminate.
 Qed.
 
 Definition wf_addend (a : addend) : Prop :=
@@ -99,7 +103,7 @@ Ltac crush :=
 Lemma lower_addends_ok x y off :
   wf_addend x -> wf_addend y -> 0 <= off < 2147483648 ->
   (match x, y with AReg _ _, AReg _ _ => off = off | _, _ => True end) ->
-  eval_amode (lower_addends_to_amode x y off) = w64 (addend_val x + addend_val y + off).
+  eval_amode (lower_addends_to_amode x y off false) = w64 (addend_val x + addend_val y + off).
 Proof.
   intros Hx Hy Hoff _. unfold lower_addends_to_amode.
   destruct x as [vx sx | ox], y as [vy sy | oy]; cbn [wf_addend] in Hx, Hy.
@@ -169,43 +173,131 @@ Lemma ev_range rg e : 0 <= ev rg e < W64.
 Proof. rewrite <- ev_reduced. unfold w64, W64. apply Z.mod_pos_bound. lia. Qed.
 
 Lemma lower_addend_wf rg e :
-  frontend_shape e = true -> wf_e e -> wf_addend (lower_addend true rg e).
+  addend_ok e = true -> wf_addend (lower_addend true rg e).
 Proof.
-  intros Hs Hw. unfold lower_addend.
+  intros Hs. unfold lower_addend.
   destruct (matchable_addend e) eqn:Hm; [| cbn; split; [apply ev_range | lia]].
-  destruct e as [r | c m | x m | x m | x k m | a b m]; cbn [matchable_addend] in Hm; try discriminate; subst m.
-  - cbn in Hw |- *. destruct (c <? 9223372036854775808) eqn:E; unfold W64 in *; lia.
+  destruct e as [r | c m | x m | x m | sg n x m | n x m | x k m | x y m | a b m];
+    cbn [matchable_addend] in Hm; try discriminate; subst m; try (cbn in Hs; discriminate).
+  - cbn. unfold s64. pose proof (Z.mod_pos_bound c W64 ltac:(unfold W64; lia)). unfold w64.
+    destruct (c mod W64 <? 9223372036854775808) eqn:E; unfold W64 in *; lia.
   - destruct x as [r | c]; cbn.
     + split; [| lia]. unfold w64, W64. apply Z.mod_pos_bound. lia.
     + unfold zext32, W32. pose proof (Z.mod_pos_bound c 4294967296). lia.
+  - destruct x as [r | c]; [cbn in Hs; discriminate|]. cbn.
+    unfold sext32, W32. pose proof (Z.mod_pos_bound c 4294967296).
+    destruct (c mod 4294967296 <? 2147483648) eqn:E; lia.
   - cbn in Hs. apply andb_prop in Hs as [H0 H3]. apply Z.leb_le in H0, H3.
     cbn. replace (k <=? 3) with true by (symmetry; apply Z.leb_le; lia). cbn.
-    split; [| lia]. unfold w64, W64. apply Z.mod_pos_bound. lia.
+    split; [apply ev_range | lia].
 Qed.
 
-(* main statement for the repaired lowering, offsets without the top bit *)
-Theorem amode_correct_small_off rg e off :
-  frontend_shape e = true -> zext_ok rg e -> wf_e e -> 0 <= off < 2147483648 ->
+(* the repaired lowering computes value + offset for EVERY static offset, including those with the top bit set
+   (which go through a materialised constant), on the whole class `lowerable` *)
+Theorem amode_correct rg e off :
+  lowerable off e = true -> zext_ok rg off e -> 0 <= off < W32 ->
   eval_amode (lower_to_amode true rg e off) = w64 (ev rg e + off).
 Proof.
-  intros Hs Hz Hw Hoff. unfold lower_to_amode.
-  replace (2147483648 <=? off) with false by (symmetry; apply Z.leb_gt; lia).
-  assert (Hgen : eval_amode
-            match lower_addend true rg e with
-            | AReg v s => if negb (s =? 0) then {| disp := off; base := 0; index := v; shift := s |}
-                          else {| disp := off; base := v; index := 0; shift := 0 |}
-            | AOff o => {| disp := 0; base := w64 (o + off); index := 0; shift := 0 |}
-            end = w64 (ev rg e + off)).
-  { rewrite <- (lower_addend_ok rg e Hs Hz Hw).
-    pose proof (lower_addend_wf rg e Hs Hw) as Hwf.
+  intros Hs Hz Hoff. unfold lower_to_amode, lowerable, zext_ok in *.
+  destruct (2147483648 <=? off) eqn:Hbig.
+  - (* the offset is materialised: base register = off (+ the constant addend), index = the register addend *)
+    apply Z.leb_le in Hbig.
+    rewrite <- (lower_addend_ok rg e Hs Hz).
+    pose proof (lower_addend_wf rg e Hs) as Hwf.
     destruct (lower_addend true rg e) as [v s | o]; cbn [wf_addend] in Hwf.
-    - destruct Hwf as [Hv Hsft]. split_shift s Hsft; cbn [Z.eqb negb]; crush.
-    - crush. }
-  destruct e as [r | c m | x m | x m | x k m | a b m]; try exact Hgen.
-  destruct m; [| exact Hgen].
-  cbn in Hs, Hz, Hw. apply andb_prop in Hs as [Hsa Hsb]. destruct Hz as [Hza Hzb], Hw as [Hwa Hwb].
-  rewrite lower_addends_ok; try (apply lower_addend_wf; assumption); try lia.
-  - rewrite !lower_addend_ok by assumption. cbn [ev]. rewrite w64_add_l. reflexivity.
-  - destruct (lower_addend true rg a), (lower_addend true rg b); auto.
+    + destruct Hwf as [Hv Hsft]. split_shift s Hsft; crush.
+    + crush.
+  - apply Z.leb_gt in Hbig.
+    assert (Hgen : addend_ok e = true -> addend_zext rg e -> eval_amode
+              match lower_addend true rg e with
+              | AReg v s => if negb (s =? 0) then {| disp := off; base := 0; index := v; shift := s |}
+                            else {| disp := off; base := v; index := 0; shift := 0 |}
+              | AOff o => {| disp := 0; base := w64 (o + off); index := 0; shift := 0 |}
+              end = w64 (ev rg e + off)).
+    { intros Hs' Hz'. rewrite <- (lower_addend_ok rg e Hs' Hz').
+      pose proof (lower_addend_wf rg e Hs') as Hwf.
+      destruct (lower_addend true rg e) as [v s | o]; cbn [wf_addend] in Hwf.
+      - destruct Hwf as [Hv Hsft]. split_shift s Hsft; cbn [Z.eqb negb]; crush.
+      - crush. }
+    destruct e as [r | c m | x m | x m | sg n x m | n x m | x k m | x y m | a b m]; try (apply Hgen; assumption).
+    destruct m; [| apply Hgen; assumption].
+    apply andb_prop in Hs as [Hs Hal]. apply negb_true_iff in Hal. rewrite Hal.
+    apply andb_prop in Hs as [Hsa Hsb]. destruct Hz as [Hza Hzb].
+    rewrite lower_addends_ok; try (apply lower_addend_wf; assumption); try lia.
+    + rewrite !lower_addend_ok by assumption. cbn [ev]. rewrite w64_add_l. reflexivity.
+    + destruct (lower_addend true rg a), (lower_addend true rg b); auto.
 Qed.
-Print Assumptions amode_correct_small_off.
+Print Assumptions amode_correct.
+
+(* on that class the real function does not panic *)
+Lemma lowerable_no_panic e off : lowerable off e = true -> lower_panics e off = false.
+Proof.
+  assert (H : forall x, addend_ok x = true -> addend_panics x = false).
+  { intros x. destruct x as [r | c m | x m | x m | sg n x m | n x m | x k m | x y m | a b m]; cbn; try reflexivity.
+    destruct m; [discriminate | reflexivity]. }
+  unfold lowerable, lower_panics. destruct (2147483648 <=? off); [apply H|].
+  destruct e as [r | c m | x m | x m | sg n x m | n x m | x k m | x y m | a b m]; try apply H.
+  destruct m; [| apply H]. intros Hab. apply andb_prop in Hab as [Hab _]. apply andb_prop in Hab as [Ha Hb].
+  rewrite (H a Ha), (H b Hb). reflexivity.
+Qed.
+
+(* the frontend's image lies inside the class *)
+Lemma frontend_addend_ok e : frontend_shape e = true -> addend_ok e = true.
+Proof.
+  destruct e as [r | c m | x m | x m | sg n x m | n x m | x k m | x y m | a b m]; cbn; try reflexivity; try discriminate.
+  intros H. apply andb_prop in H as [H _]. destruct m; [exact H | reflexivity].
+Qed.
+Lemma frontend_lowerable e off : frontend_shape e = true -> lowerable off e = true.
+Proof.
+  intros H. unfold lowerable. destruct (2147483648 <=? off); [apply frontend_addend_ok; exact H|].
+  destruct e as [r | c m | x m | x m | sg n x m | n x m | x k m | x y m | a b m]; try (apply frontend_addend_ok; exact H).
+  destruct m; [| reflexivity]. cbn [frontend_shape] in H. apply andb_prop in H as [H Hal]. apply andb_prop in H as [Ha Hb].
+  rewrite (frontend_addend_ok a Ha), (frontend_addend_ok b Hb), Hal. reflexivity.
+Qed.
+Lemma zext_all_addend rg e : zext_all rg e -> addend_zext rg e.
+Proof.
+  destruct e as [r | c m | x m | x m | sg n x m | n x m | x k m | x y m | a b m]; cbn; auto.
+  destruct x; auto. destruct m; auto.
+Qed.
+Lemma zext_all_ok rg e off : zext_all rg e -> zext_ok rg off e.
+Proof.
+  intros H. unfold zext_ok. destruct (2147483648 <=? off); [apply zext_all_addend; exact H|].
+  destruct e as [r | c m | x m | x m | sg n x m | n x m | x k m | x y m | a b m]; try (apply zext_all_addend; exact H).
+  destruct m; [| exact I]. cbn in H. destruct H as [Ha Hb]. split; apply zext_all_addend; assumption.
+Qed.
+
+Theorem amode_correct_frontend rg e off :
+  frontend_shape e = true -> zext_all rg e -> 0 <= off < W32 ->
+  eval_amode (lower_to_amode true rg e off) = w64 (ev rg e + off) /\ lower_panics e off = false.
+Proof.
+  intros Hs Hz Hoff. split.
+  - apply amode_correct; [apply frontend_lowerable | apply zext_all_ok |]; assumption.
+  - apply lowerable_no_panic, frontend_lowerable; assumption.
+Qed.
+
+(* non-vacuity: the shapes memOpSetup produces, constants and offsets with the top bit set *)
+Example amode_frontend_instances :
+  let rg := fun n => match n with O => 1099511627776 | _ => 4294967288 end in
+  let e1 := ADD (V64 0) (UX (R32 1) true) true in
+  let e2 := ADD (V64 0) (UX (C32 2147483648) true) true in
+  frontend_shape e1 = true /\ frontend_shape e2 = true /\ zext_all rg e1 /\ zext_all rg e2 /\
+  eval_amode (lower_to_amode true rg e1 4294967295) = 1099511627776 + 4294967288 + 4294967295 /\
+  eval_amode (lower_to_amode true rg e2 2147483648) = 1099511627776 + 4294967296 /\
+  eval_amode (lower_to_amode true rg e2 2147483647) = 1099511627776 + 4294967295.
+Proof. cbn [frontend_shape zext_all andb]. unfold W32. repeat split; try lia; vm_compute; reflexivity. Qed.
+
+(* outside the class the code is wrong (latent: the frontend does not produce these): a matched sign extension of
+   a register is used without extending, a shift by more than 3 is dropped *)
+Example amode_outside_class_refuted :
+  let rg := fun _ => 4294967295 in
+  eval_amode (lower_to_amode true rg (SX (R32 0) true) 0) <> ev rg (SX (R32 0) true) /\
+  eval_amode (lower_to_amode true rg (SHL (V64 0) 4 true) 0) <> ev rg (SHL (V64 0) 4 true).
+Proof. vm_compute. split; discriminate. Qed.
+
+(* two shifted addends: the code shifts the first one's register in place; when both are shifts of one register the
+   index is read after the shift (latent: the frontend never adds two shifts). Found by the direct stream. *)
+Example amode_double_shift_same_register_refuted :
+  let rg := fun _ => 1 in
+  let e := ADD (SHL (V64 0) 3 true) (SHL (V64 0) 2 true) true in
+  eval_amode (lower_to_amode true rg e 0) = 40 /\ ev rg e = 12 /\ lowerable 0 e = false.
+Proof. vm_compute. repeat split; reflexivity. Qed.
